@@ -89,7 +89,7 @@ int main(int argc, char **argv) {
 	printf("EARLY %d %d\n", variant, early);
 	printf("detail: A ran=%d, B ran=%d, B ran before the leave matching its preceding enter=%d\n", atomic_load(&a_ran),
 			atomic_load(&b_ran), atomic_load(&b_ran_before_leave));
-	printf("Q 0 %llu 2\n", (unsigned long long)(*(volatile uint64_t *)&g->dg_state));
+	printf("Q 0 %llu %d\n", (unsigned long long)(*(volatile uint64_t *)&g->dg_state), variant == 0 ? 2 : 1);
 	dv_user(DVU_MARK, 0, 99, 0);
 	dv_dump(stdout);
 	return 0;
